@@ -146,6 +146,8 @@ def draw_cosmos_msg(rng, custom_msg=False, allow_custom=True, kinds=None):
         return {"gov": {"vote": {"proposal_id": rng.randrange(100), "option": rng.choice(["yes", "no", "abstain", "no_with_veto"])}}}
     if k == "stargate":
         return {"stargate": {"type_url": "/a.b.C" + str(rng.randrange(9)), "value": b64()}}
+    if k == "any":
+        return {"any": {"type_url": "/x.y.Z" + str(rng.randrange(9)), "value": b64()}}
     if k == "custom":
         return {"custom": ({"ping": {"n": rng.randrange(1000)}} if custom_msg else {})}
     raise ValueError(k)
